@@ -2,7 +2,8 @@
 
 model/code tie : circuits are generated over the exportable gates (all parameter container types, zero / negative / tiny /
                  huge parameters, int and float) plus non-exportable gates; the real circuit_to_qasm_str text is compared
-                 EXACTLY with Model/QasmExport.v `export` under vm_compute (repr(float) enters the model as a shape).
+                 EXACTLY with Model/QasmExport2.v `export2` (= user-gate refusal + parameterless-gate argument rule + Model/QasmExport.v
+                 `export`) under vm_compute (repr(float) enters the model as a shape; user_gates enters as the list of its keys).
 oracle         : the independent strict OpenQASM 2.0 reader/evaluator of tools/props/c04_oqasm.py must accept the text
                  and give it the circuit's own action (all measurement branches of two random inputs, up to a phase per
                  branch); the library's read_qasm must re-import it with the same action; an exportable circuit must
@@ -25,7 +26,7 @@ from common import Corr, Broken, coq_eval_many, parse_evals, cstr, VERIF  # noqa
 from translate import gates_tr, qasm_tr  # noqa: E402
 
 ID = "C10"
-TARGETS = ["Props/C10.vo"]
+TARGETS = ["Model/QasmExport2.vo", "Proofs/QasmExport2.vo", "Props/C10.vo"]
 TRUSTED = [
     "repr(float) is an oracle: a float parameter enters the model as the shape of its repr ([-]d.d, [-]d[.d]e+-dd, inf, nan) computed "
     "by the harness; numbers.Integral / float() / isinstance dispatch of _qasm_number are read as int vs float",
@@ -39,9 +40,10 @@ TRUSTED = [
     "translators tools/translate/qasm_tr.py and gates_tr.py (fail-closed)",
     "QubitCircuit.gates is read through the public attributes name/targets/controls/arg_value/classical_controls of Gate (the model's cc flag is the "
     "truthiness of classical_controls, whatever classical_control_value is) and "
-    "targets/classical_store of Measurement; 0-d arrays are not modelled; three projections are made by the harness when it writes a circuit for the model (each tied to the code by the exact text / refusal "
-    "comparison): numpy-array targets enter as the list, the arg_value of a gate that takes no parameter enters as None (fix C10-parameterless-gate-arg drops it), "
-    "a gate registered in user_gates enters under a name outside the library name space, which the model refuses (fix C10-user-gate-refused)",
+    "targets/classical_store of Measurement; QubitCircuit.user_gates is read as the list of its keys (x_user of Model/QasmExport2.v); 0-d arrays are not modelled; "
+    "the user-gate refusal and the dropping of the arg_value of a parameterless gate are part of the MODEL (export2, theorems export2_*): the harness hands every circuit to "
+    "export2 unprojected (user-gate keys, arg_value as given) and compares exact text / refusal; the one remaining conversion is that numpy-array targets enter as the "
+    "list of their elements - the model's target container is a list of nat by construction (fix C10-ndarray-targets; tied to the code by the same exact comparison)",
     "equivalence: per record of measurement outcomes, states agree up to a unit scalar",
 ]
 ASSUMES = ["parameters range over all reals via the phase-ring quantification of Found",
@@ -176,24 +178,32 @@ def ccirc(c):
             ops.append(f"EMeas {o['meas'][0]} {st}")
         else:
             nl = lambda xs: "[" + "; ".join(str(x) for x in xs) + "]"
-            # fixes C10-user-gate-refused / C10-parameterless-gate-arg: a gate registered in user_gates is refused before any name lookup -
-            # it enters the model under a name outside the library's name space; the arg_value of a gate that takes no parameter
-            # is dropped before printing - it enters the model as None.  (numpy targets enter as the list: fix C10-ndarray-targets.)
-            gname = ("user:" + o["gate"]) if o.get("user") else o["gate"]
-            garg = {"kind": "none", "vals": []} if is_extra_param(o) else o["arg"]
-            ops.append(f"EGate {cstr(gname)} {nl(o['targets'])} {nl(o['controls'])} {carg(garg)} "
+            # NO projection: name and arg_value enter as they are; the user-gate refusal and the dropping of a parameterless gate's
+            # arg_value are done by the model (export2).  numpy-array targets enter as the list of their elements: the model's
+            # target container is a list of nat by construction (fix C10-ndarray-targets).
+            ops.append(f"EGate {cstr(o['gate'])} {nl(o['targets'])} {nl(o['controls'])} {carg(o['arg'])} "
                        f"{'true' if o.get('cc') else 'false'}")
-    return f"(mkEC {c['N']} {c['ncb']} [{'; '.join(ops)}])"
+    return f"(mkXC (mkEC {c['N']} {c['ncb']} [{'; '.join(ops)}]) [{'; '.join(cstr(n) for n in user_keys(c))}])"
+
+
+def user_keys(c):
+    """the keys of QubitCircuit.user_gates as build_circuit registers them (in order of first occurrence)"""
+    out = []
+    for o in c["ops"]:
+        if o.get("user") and o["gate"] not in out:
+            out.append(o["gate"])
+    return out
 
 
 CASE_HEAD = r"""
-From QV Require Import Spec.Qasm Spec.QasmStrict Model.QasmExport Proofs.QasmValid1 Proofs.QasmValid3 Proofs.QasmValid4.
+From QV Require Import Spec.Qasm Spec.QasmStrict Model.QasmExport Model.QasmExport2 Proofs.QasmValid1 Proofs.QasmValid3 Proofs.QasmValid4.
 Local Open Scope string_scope.
 Local Open Scope nat_scope.
-(* text; (strict reader accepts, program well-formed, number of operations); guards of export_valid: (shapes_ok, circ_wf, u_ok) *)
-Definition chk (c : ecirc) := match export c with
+(* text of export2 (circuit + user_gates keys, unprojected); (strict reader accepts, program well-formed, number of operations);
+   guards of export2_valid, i.e. of the projected circuit: (shapes_ok, circ_wf, u_ok) *)
+Definition chk (x : xcirc) := match export2 x with
   | Some t => Some (t, match strict_parse t with Some p => (true, wf lib_sigs p, length (p_ops p)) | None => (false, false, 0) end,
-                    (shapes_ok c, circ_wf c, u_ok c))
+                    (let c := proj_circ (x_c x) in (shapes_ok c, circ_wf c, u_ok c)))
   | None => None end.
 """
 
@@ -624,6 +634,26 @@ def _stream(ctx, n_ok, n_bad):
         qs = rng.sample(range(3), nc + nt)
         cases.append(("extra-parameter", {"N": 3, "ncb": 0, "ops": [{"gate": name, "targets": qs[nc:], "controls": qs[:nc],
                                                                     "arg": {"kind": "scalar", "vals": [enc_num(rng.choice([0.3, 2, 0.0]))]}}]}))
+    # ... with every container type, non-finite values (dropped, so the export succeeds) and next to gates that keep their parameter
+    for name in PARAMLESS:
+        nc, nt = EXPORTABLE[name]
+        for kind in ("list", "tuple", "array", "scalar")[:ctx.n(2, 4)] if name not in ("CNOT", "SWAP") else ("list", "tuple", "array", "scalar"):
+            qs = rng.sample(range(3), nc + nt)
+            vals = [enc_num(rng.choice([0.3, 2, 0.0, -1.5, float("inf"), float("nan")])) for _ in range(1 if kind == "scalar" else rng.randint(1, 3))]
+            if kind == "array":
+                vals = [enc_num(float(dec_num(v))) for v in vals]
+            ops = [{"gate": name, "targets": qs[nc:], "controls": qs[:nc], "arg": {"kind": kind, "vals": vals}},
+                   {"gate": "RX", "targets": [rng.randrange(3)], "controls": [], "arg": {"kind": "scalar", "vals": [enc_num(0.75)]}}]
+            rng.shuffle(ops)
+            cases.append(("extra-parameter", {"N": 3, "ncb": 0, "ops": ops}))
+    # a name registered in user_gates used by a flagged AND an unflagged gate / next to parameterless gates with an arg_value / user gate
+    # that carries an arg_value: `op.name in self.user_gates` decides, whatever the gate object is
+    for name in USERLIB_NAMES[:ctx.n(4, 7)] + ["CNOT", "RX", "crx"]:
+        k = 2 if name == "CNOT" else 1
+        ops = [dict(plain(name, rng.sample(range(3), k)), user=True), plain(name, rng.sample(range(3), k)),
+               {"gate": "SWAP", "targets": [0, 2], "controls": [], "arg": {"kind": "scalar", "vals": [enc_num(0.3)]}}]
+        rng.shuffle(ops)
+        cases.append(("user-gate-shared-name", {"N": 3, "ncb": 0, "ops": ops}))
     # two (or three) gates of one kind whose angles agree to 5-8 significant digits, large and small: every one keeps its own angle
     # through export and re-import (definition-emitting CRX / CRY, and CRZ / RX / RZ for comparison)
     NEAR = [(1234567.0, 1234568.5), (0.5, 0.5000001), (123456.7, 123456.8), (1.2345678e-7, 1.2345679e-7), (3.1415926, 3.1415927),
@@ -650,7 +680,8 @@ def correspond(ctx):
                      "1e12, 1e16, 5e-324, ints; QASMU with list / tuple / ndarray parameters, numpy scalars) + random circuits with "
                      "measurements + every exportable gate with 1-3 classical controls and every control value 0..2**k-1 / default (must be refused) + "
                      "circuits with one non-exportable gate / classical control / inf / nan / measurement without store + user gates named like library gates "
-                     "(case variants and exact names: refused) + ndarray targets + arg_value on parameterless gates + pairs of near-equal angles; "
+                     "(case variants and exact names, a registered name shared by several gates: refused) + ndarray targets + arg_value (scalar / list / tuple / ndarray, "
+                     "finite or not) on parameterless gates - all handed UNPROJECTED to the model's export2 - + pairs of near-equal angles; "
                      "non-trivial = has a parameter, a definition or a measurement")
     cases = _stream(ctx, ctx.n(220, 2500), ctx.n(60, 500))
     circs = [c for _, c in cases]
